@@ -330,6 +330,28 @@ Theorem C09_the_file_after_an_inner_node_appendover_in_closed_form :
 Proof. exact inner_node_appendover_closed_form. Qed.
 Print Assumptions C09_the_file_after_an_inner_node_appendover_in_closed_form.
 
+Theorem C09_the_file_after_an_appendover_of_the_branch_below_an_inner_node_in_closed_form :
+  forall c0 m root p km data md,
+    In md appendovermode ->
+    rcls m = CRoot -> rname root = rname m -> rmds root = [] -> ok_tree m -> p <> [] ->
+    rwalk m p = Some km -> rwalk root p = Some data ->
+    compat_ao data (shallow_links km) (rkids km) ->
+    append_existing root p (WA md None None) md (whole_file c0 m)
+    = Ok (whole_file c0 (rsubst p m (with_kids km (aom data (rkids km))))).
+Proof. exact inner_node_appendover_branch_closed_form. Qed.
+Print Assumptions C09_the_file_after_an_appendover_of_the_branch_below_an_inner_node_in_closed_form.
+
+Theorem C09_the_file_after_a_foreign_node_is_placed_under_an_emdpath_in_closed_form :
+  forall c0 m root tp data p kt md tr,
+    rcls m = CRoot -> rname root <> rname m -> ok_tree m -> rwalk m p = Some kt ->
+    tp <> [] -> rwalk root tp = Some data -> ok_tree data ->
+    (forall k, In k (placed data tr) -> ~ In (rname k) (keys (olinks (enc kt)))) ->
+    Forall (fun s => s <> "" /\ no_slash s = true) (rname m :: p) ->
+    append_existing root tp (WA md tr (Some (join_slash (rname m :: p)))) md (whole_file c0 m)
+    = Ok (whole_file c0 (rsubst p m (with_kids kt (rkids kt ++ placed data tr)))).
+Proof. exact foreign_node_closed_form. Qed.
+Print Assumptions C09_the_file_after_a_foreign_node_is_placed_under_an_emdpath_in_closed_form.
+
 Example C09_closed_form_example :
   let m := RN CRoot "r" 0%Z 0 [] [RN CNode "a" 0%Z 0 [] [RN CNode "b" 0%Z 0 [] [RN CNode "x" 0%Z 0 [] []]; RN CNode "s" 0%Z 0 [] []]] in
   let d2 := RN CNode "b" 0%Z 0 [] [RN CNode "y" 0%Z 0 [] []] in
